@@ -89,10 +89,21 @@ func (e *vestEnv) fresh() chain.Key {
 	return e.key(fmt.Sprintf("fresh-%d", e.nextKey))
 }
 
+// unitsOf expresses a duration in the largest unit of a genesis file that divides it (the
+// harness' own conversion: the genesis it builds must not depend on the code under test).
 func unitsOf(d time.Duration) (int64, string) {
-	u, v := vesttypes.UnitsFromDuration(d)
-	return v, string(u)
+	switch {
+	case d%(24*time.Hour) == 0:
+		return int64(d / (24 * time.Hour)), "day"
+	case d%time.Hour == 0:
+		return int64(d / time.Hour), "hour"
+	case d%time.Minute == 0:
+		return int64(d / time.Minute), "minute"
+	}
+	return int64(d / time.Second), "second"
 }
+
+var manyDenoms = []string{"aaa", "bbb", "ccc", "ddd", "eee", "fff", "ggg", "hhh", "iii"}
 
 func bigCoins(denom string, exp int) sdk.Coin {
 	v, _ := new(big.Int).SetString("1"+strings.Repeat("0", exp), 10)
@@ -169,6 +180,12 @@ func newVestEnvOpts(r *rand.Rand, opt vestOpts) (*vestEnv, error) {
 			ov = ov.Add(sdk.NewCoin("foo", sdk.NewInt(int64(1000+r.Intn(1_000_000)))))
 			// a denomination with upper-case characters (IBC vouchers look like this)
 			ov = ov.Add(sdk.NewCoin(distDenoms[2], sdk.NewInt(int64(1000+r.Intn(5_000_000)))))
+			if r.Intn(2) == 0 {
+				// ... and a dozen denominations in all
+				for _, d := range manyDenoms {
+					ov = ov.Add(sdk.NewCoin(d, sdk.NewInt(int64(1+r.Intn(1_000_000)))))
+				}
+			}
 		}
 		start := gen.Epoch.Add(time.Duration(r.Intn(3)-1) * time.Hour)
 		end := start.Add(time.Duration(1+r.Intn(72)) * time.Hour)
@@ -549,6 +566,16 @@ func (e *vestEnv) genOp0(r *rand.Rand, now time.Time) vOp {
 			}
 			if r.Intn(10) == 0 {
 				ds = append(ds, "nonexistent")
+			}
+			if r.Intn(5) == 0 {
+				// every denomination the sender has locked, however many
+				ds = nil
+				for _, lc := range locked {
+					ds = append(ds, lc.Denom)
+				}
+				if len(ds) == 0 {
+					ds = []string{vDenom}
+				}
 			}
 			msg := &vesttypes.MsgMoveAvailableVestingByDenoms{FromAddress: signer.Bech(), ToAddress: to, Denoms: ds}
 			return vOp{kind: "move-denoms", signer: signer, msg: msg, fee: fee, owner: signer.Bech(), to: to, denoms: ds, custom: true, desc: fmt.Sprintf("move-denoms %s->%s %v", short(signer.Bech(), 10), short(to, 10), ds)}
